@@ -12,7 +12,7 @@ import os
 
 from vlib import core, e2e
 
-MODS = ['S4V.Props.TimeSpec', 'S4V.Props.RegexSpec', 'S4V.Props.RegexCapture', 'S4V.Props.PatSelSpec']
+MODS = ['S4V.Props.TimeSpec', 'S4V.Props.RegexSpec', 'S4V.Props.RegexCapture', 'S4V.Props.RegexCapture2', 'S4V.Props.RegexCapture2Auto', 'S4V.Props.PatSelSpec']
 LEVEL_NOTE = ("Proved (S4V.Props.TimeSpec over the hand model of captures_to_buffer_bytes + datetime_parse_from_str and the tables regenerated from "
               "datetime.rs): every DTPD! row has range start 0; every DTFSS set's strftime pattern is the item sequence its enum fields stand for; every "
               "zone value is +-HH:MM within 14 h, scans to that offset, case variants agree; every accepted month name maps to its month; "
@@ -27,7 +27,10 @@ LEVEL_NOTE = ("Proved (S4V.Props.TimeSpec over the hand model of captures_to_buf
               "with two consecutive digits; hence the cheap pre-checks never skip a line the pattern would match (C04_ezcheck_sound) and find_datetime_in_line with the three persisting "
               "EZCHECK cursors returns what the loop without them returns (C04_ezcheck_transparent; without `range start = 0` it is false: C04_ezcheck_transparent_full_false, latent). "
               "For the RFC 3339 row the captures are proved end to end: for every field value, `search` on the rendered text captures exactly the fields, which C04_normalise_parse turns "
-              "into the denoted instant (C04_rfc3339_search, C04_rfc3339_end_to_end). Which row a file is read with (PatSelSpec; constants regenerated): try order = count descending then "
+              "into the denoted instant (C04_rfc3339_search, C04_rfc3339_end_to_end), and thirteen more rows by a symbolic re-run of the matcher proved sound once and "
+              "one decide per row (RegexCapture2/2Auto: ISO 8601 date-time with space or T and optional separators, zone-less end to end - C04_iso_end_to_end - and with +-HH:MM, +-HHMM, +-HH and all 392 "
+              "zone names; RFC 5424-style <PRI> rows; RFC 3164 with and without year, all 105 month-name forms; RFC 2822; epoch seconds; two ad-hoc named-month notations): match at 0, exact span, every "
+              "group on its field, for every field value and every admissible tail (the tail condition is proved necessary). Which row a file is read with (PatSelSpec; constants regenerated): try order = count descending then "
               "index; first line gets the lowest matching row; after analysis exactly the most-used row (lowest index on ties) remains and every line is dated by it alone; for a one-notation "
               "file the dates are the same before and after analysis; the parse LRU is transparent and cleared at both year changes. NOT theorems: completeness/priority of `search` w.r.t. "
               "the regex crate for rows other than 71, chrono = parseBuf: these are the correspondences `rgx` (every row: match, span, every group span), `time`, `patsel` and the end-to-end probes.")
@@ -244,7 +247,7 @@ def oracle_all(ctx):
 
 
 def check(ctx):
-    return core.standard_check(ctx, ['TimeTables', 'Regex', 'PatSel'], MODS, [('time', 3000, 60000), ('rgx', 12000, 150000), ('patsel', 500, 6000)], oracle_all, LEVEL_NOTE, ASSUME)
+    return core.standard_check(ctx, ['TimeTables', 'Regex', 'PatSel'], MODS, [('time', 3000, 60000), ('rgx', 12000, 150000), ('rgxr', 13000, 52000), ('patsel', 500, 6000)], oracle_all, LEVEL_NOTE, ASSUME)
 
 
 def replay(ctx, data):
